@@ -228,7 +228,15 @@ class PowerSpectrum:
         exclusion_ranges = baseline_ranges[np.unique(exclusion_baseline_indices)]
         # Convert the indices to frequencies
         df = self.frequency[1] - self.frequency[0]
-        return_val = [(self.frequency[x[0]], self.frequency[x[1]] + df) for x in exclusion_ranges]
+
+        def upper_edge(idx):
+            # The exclusive upper edge is the next frequency bin; adding `df` to the last included bin can
+            # round to a value just above the next bin, which would then be included in the range as well.
+            if idx + 1 < len(self.frequency):
+                return self.frequency[idx + 1]
+            return self.frequency[idx] + df
+
+        return_val = [(self.frequency[x[0]], upper_edge(x[1])) for x in exclusion_ranges]
         return return_val
 
     def in_range(self, frequency_min, frequency_max) -> "PowerSpectrum":
